@@ -506,6 +506,17 @@ class Wrapped(Shape):
         return self.inner.conforms(r)
 
 
+class Loose(Wrapped):
+    """An un-annotated position (e.g. a field of collections.namedtuple): values are built from the inner shape, but
+    *any* result conforms - there is no declared type."""
+
+    def __init__(self, inner):
+        super().__init__(t.Any, inner, name=f"untyped({inner.name})")
+
+    def conforms(self, r):
+        return None
+
+
 class Rec(Shape):
     """A recursive structured type: `make(depth)` returns the Struct shape unrolled to `depth`."""
 
@@ -565,7 +576,8 @@ PUREPATHS = [pathlib.PurePosixPath("a"), pathlib.PurePosixPath("/x/y.txt"), path
 DATES = [datetime.date(1970, 1, 1), datetime.date(2020, 2, 29), datetime.date(1, 1, 1), datetime.date(9999, 12, 31)]
 DATETIMES = [datetime.datetime(1970, 1, 1, tzinfo=UTC), datetime.datetime(2020, 2, 29, 23, 59, 59, 999999, tzinfo=UTC),
              datetime.datetime(2001, 9, 9, 1, 46, 40, tzinfo=aware(5, 30)),
-             datetime.datetime(1969, 12, 31, 23, 0, 0, 1, tzinfo=aware(-8))]
+             datetime.datetime(1969, 12, 31, 23, 0, 0, 1, tzinfo=aware(-8)),
+             datetime.datetime(3000, 9, 25, 13, 51, 29, 607690, tzinfo=UTC), datetime.datetime(101, 7, 9, 12, 0, 0, 1, tzinfo=UTC)]
 TIMES = [datetime.time(0, 0, tzinfo=UTC), datetime.time(23, 59, 59, 999999, tzinfo=UTC),
          datetime.time(12, 30, tzinfo=aware(5, 30)), datetime.time(1, 2, 3, 4, tzinfo=aware(-8))]
 TIMEDELTAS = [datetime.timedelta(0), datetime.timedelta(seconds=1), datetime.timedelta(days=1, seconds=3661),
@@ -619,7 +631,7 @@ class JVal(Shape):
     T = object
     transparent = True
 
-    def __init__(self, depth=1, wide_ints=False, strs=None, maxlen=2, extra=(), small_inner=True, keys=("a", "x")):
+    def __init__(self, depth=1, wide_ints=False, strs=None, maxlen=2, extra=(), small_inner=True, keys=("a", "x", 1)):
         self.depth, self.wide, self.strs, self.maxlen = depth, wide_ints, strs or J_STRS, maxlen
         self.extra = list(extra)  # additional concrete objects (instances of unrelated classes, bytes ...)
         self.small_inner, self.keys = small_inner, list(keys)
